@@ -208,6 +208,14 @@ def RawEnv.read (r : RawEnv) : Env := ⟨envBool r.inproc, envBool r.ipc, envBoo
 /-- Spec: "explicitly opted in for transport t" on the raw environment — the designated variable carries an opting-in value. -/
 def optedInRaw (r : RawEnv) (t : Transport) : Bool := envOn (r.get (designated t))
 
+
+/-! ### which engine a chain configuration selects: aqua/backend.go CreateConsensusEngine -/
+
+/-- `cliqueSet` = `chainConfig.Clique != nil`, the guard of the only call of clique.New (regenerated: Gen.Rpc.gatedEngines).
+    The PowMode cases that precede it in the switch (fake/test/shared → aquahash) only make this an over-approximation of
+    "the node signs blocks": a configuration without a Clique section never gets the clique engine. -/
+def kindOfCfg (cliqueSet : Bool) : Kind := if cliqueSet then .clique else .pow
+
 /-! ### helpers for the driver -/
 
 def Method.key (m : Method) : String :=
